@@ -116,6 +116,22 @@ pub fn run_addr(_args: &[String]) {
                     if std::path::Path::new(&stripped).exists() {
                         fail("server", format!("socket file {:?} still exists after the listener was dropped", stripped));
                     }
+                    // the same address again, this time with a socket file left behind by an instance that did not clean up
+                    // (killed): with or without parameters the server takes the path over
+                    let stale = UnixListener::bind(&stripped);
+                    drop(stale); // std does not unlink: the file stays
+                    if !std::path::Path::new(&stripped).exists() {
+                        fail("harness", format!("could not leave a stale socket file at {:?}", stripped));
+                    }
+                    match Listener::new(&addr) {
+                        Ok(l2) => {
+                            if let Err(e) = varlink::varlink_connect(&connect_addr) {
+                                fail("client", format!("varlink_connect({:?}) to the listener that replaced a stale socket file failed: {:?}", connect_addr, e.kind()));
+                            }
+                            drop(l2);
+                        }
+                        Err(e) => fail("server", format!("Listener::new({:?}) with a stale socket file at the path failed: {:?}", addr, e.kind())),
+                    }
                 }
             }
             "env" => {
